@@ -85,20 +85,27 @@ pp_semaphore_create_handle (PSemaphore	*sem,
 
 	init_val = sem->init_val;
 
-	/* Solaris may interrupt sem_open() call */
-	while ((sem->sem_hdl = sem_open (sem->platform_key,
-					 O_CREAT | O_EXCL,
-					 0660,
-					 init_val)) == P_SEM_INVALID_HDL &&
-		p_error_get_last_system () == EINTR)
-		;
+	while (TRUE) {
+		/* Solaris may interrupt sem_open() call */
+		while ((sem->sem_hdl = sem_open (sem->platform_key,
+						 O_CREAT | O_EXCL,
+						 0660,
+						 init_val)) == P_SEM_INVALID_HDL &&
+			p_error_get_last_system () == EINTR)
+			;
+
+		if (sem->sem_hdl != P_SEM_INVALID_HDL ||
+		    p_error_get_last_system () != EEXIST ||
+		    sem->mode != P_SEM_ACCESS_CREATE)
+			break;
+
+		/* Reset requested: remove the existing semaphore and create it again */
+		sem_unlink (sem->platform_key);
+	}
 
 	if (sem->sem_hdl == P_SEM_INVALID_HDL) {
 		if (p_error_get_last_system () == EEXIST) {
-			if (sem->mode == P_SEM_ACCESS_CREATE)
-				sem_unlink (sem->platform_key);
-			else
-				init_val = 0;
+			init_val = 0;
 
 			while ((sem->sem_hdl = sem_open (sem->platform_key,
 							 0,
